@@ -16,7 +16,7 @@ operation (connection, op index, kind).  expand() then yields one scenario per
 import copy
 
 PROPS = ('C08',)
-RACE_PROBES = ('fault_with_inflight', 'reconnect_after_timeout', 'ping_timeout', 'probe_on_open',
+RACE_PROBES = ('request_during_open', 'fault_with_inflight', 'reconnect_after_timeout', 'ping_timeout', 'probe_on_open',
                'fault_during_open', 'timed_out_then_fault')
 SHRINK_KEYS = ('ops',)
 
@@ -55,7 +55,15 @@ def generate(rng, tier='quick', stack=None, **kw):
       ops.append({'t': round(t, 4), 'op': 'call', 'id': 'c%d' % i, 'method': rng.choice(['echo', 'risky', 'swap']),
                   'payload': 'x', 'timeout': T, 'svc': svc})
       t += rng.choice([0.0, 0.0, 0.001, 0.05, 0.4])
-  scn = {'world': 'w_transport', 'stack': stack, 'latency': rng.choice([0.0005, 0.002]),
+  early = 0
+  if stack == 'mux' and ops and rng.random() < 0.4:
+    # the first requests reach the transport while its Open() (connect + initial
+    # ping) is still in progress
+    early = rng.randint(1, min(3, len(ops)))
+    for o in ops[:early]:
+      o['t'] = 0.0
+      o['early'] = True
+  scn = {'world': 'w_transport', 'stack': stack, 'latency': rng.choice([0.0005, 0.002]), 'early': early,
          'net': {'chunk': rng.choice(['none', 'some', 'bytes']), 'jitter': rng.choice([0.0, 0.0003])},
          'ops': ops, 'directives': [], 'pilot': True,
          'long': rng.random() < (0.5 if stack == 'mux' else 0.0)}
@@ -153,9 +161,15 @@ def run(scn):
     return d
   net.directive_for = directive_for
 
-  open_ar = disp.Open()
-  open_ar.wait(5.0)
-  base = CLOCK.now
+  early_ops = [o for o in scn['ops'] if o.get('early')]
+  if early_ops:
+    # open the transport directly and let the dispatcher forward at once, so
+    # that requests arrive at a transport whose open is still pending
+    open_ar = transport.Open()
+    disp._open_ar = open_ar.__class__()
+    disp._open_ar.set(True)
+  else:
+    open_ar = disp.Open()
 
   def issue(op):
     m = op['method']
@@ -163,7 +177,14 @@ def run(scn):
     args = (SimService.Pair(a=arg, b=int(op['id'][1:])),) if m == 'swap' else (arg,)
     return tracker.issue(disp, op['id'], m, args, timeout=op.get('timeout'), spec=op)
 
+  for op in early_ops:
+    issue(op)
+    REC.probe('request_during_open')
+  open_ar.wait(5.0)
+  base = CLOCK.now
   for op in scn['ops']:
+    if op.get('early'):
+      continue
     dt = base + op['t'] - CLOCK.now
     if dt > 0:
       gevent.sleep(dt)
@@ -173,6 +194,8 @@ def run(scn):
     gevent.sleep(50.0)          # past one ping interval (30-40 s) + ping timeout (5 s)
   if fired.get('kind') == 'silence' and stack == 'mux':
     gevent.sleep(max(0.0, fired['t'] + 47.0 - CLOCK.now))
+  if fired.get('kind') == 'hang':
+    gevent.sleep(max(0.0, fired['t'] + 130.0 - CLOCK.now))   # the kernel gives up after 127 s
   horizon = CLOCK.now
 
   # ---- oracles ----
